@@ -27,6 +27,7 @@ RULE = (
     'reparsed serialisation. Plus all histories of length <= 2 over a reduced alphabet (exhaustive). Non-trivial: >= 3 '
     'effective steps with an insert/add after a delete or text replacement, or a rejected step followed by an accepted '
     'one; distinct by history.'
+    ' Rule texts also: margin box keywords in other spellings at sheet level, other @variables blocks (their replaced declaration blocks are tracked like style blocks).'
 )
 ASSUMPTIONS = [
     'only xml.dom.DOMException counts as a rejection; any other exception type escaping an edit is reported as crash (it is outside the wording of C09)',
